@@ -90,6 +90,10 @@ OPKINDS = ["P", "R", "T", "E", "S", "D", "L", "F", "B"]
 OPNAMES = {"P": "predict", "Q": "predict", "C": "predict", "@": "switch", "R": "prior_predict", "T": "train", "E": "eval", "S": "step", "D": "set_train_data",
            "L": "load_state_dict", "F": "get_fantasy_model", "B": "backward"}
 TOL, TOL_CG, CG_ONLY_MAX = 1e-8, 2e-4, 1e-2
+# fantasy model called under a pair that toggles lazily_evaluate_kernels: its strategy is rebuilt from scratch, the second
+# fantasy model still holds the low-rank *updated* caches — two algorithms for one posterior (C04's property), observed
+# ≤ 2e-8 (jitter of the Cholesky-based root updates); stale entries move results by ≥ 4e-2
+TOL_FANTASY_REBUILD = 1e-6
 _state = {}
 
 
@@ -609,7 +613,11 @@ def run_history(kind, tokens, seed, compare_all=False):
         rec = {"token": r["token"], "status": r["status"], "keys": keys, "diff": None, "tol": None,
                "training": was_training, "reused": not before_empty, "obj": cur}
         if r["fantasy"] is not None:
-            rec["fantasy"] = r["fantasy"]
+            f = rec["fantasy"] = r["fantasy"]
+            f["tol"] = TOL_CG if tr.tainted else (TOL_FANTASY_REBUILD if (f["a"] | f["b"]) & EAGER else TOL)
+            if tr.degraded or tr.root_degraded:
+                # the fantasy strategy's caches are updates of entries an accuracy-degrading call legitimately left
+                f["skipped"] = "source holds degraded entries"
         is_taint = op[0] == "Q"
         uses_cg = bool(r["cell"] & NOCHOL) and not r["prior"]
         if r["pred"] is not None and not is_taint:
@@ -1033,10 +1041,12 @@ def check_job(ctx, kind, tokens, seed, recs, stats):
         f = r.get("fantasy")
         if f is not None:
             ctx.count("fantasy_models_called_under_a_settings_pair")
-            bad = f["error"] is not None or not (f["diff"] <= TOL)
+            if f.get("skipped"):
+                ctx.count("fantasy_models_of_a_degraded_source_not_compared")
+            bad = not f.get("skipped") and (f["error"] is not None or not (f["diff"] <= f["tol"]))
             if bad and len(ctx.failures) < 40:
                 pat = f"predict[{cell_name(f['a'])}]>predict[{cell_name(f['b'])}]"
-                what = f["error"] if f["error"] is not None else f"differs by {f['diff']:.3g} (relative; tolerance {TOL:g})"
+                what = f["error"] if f["error"] is not None else f"differs by {f['diff']:.3g} (relative; tolerance {f['tol']:g})"
                 # `stale-fantasy:` only for the exactly attributed OVC inconsistency of variational fantasy models
                 ctx.fail(f"{'stale-fantasy' if f.get('ovc_signature') else 'fantasy-history'}:{kind}:{pat}",
                          f"{kind} model, history `{pattern(tokens[:n + 1])}`: the model returned by get_fantasy_model, called as `{pat}`, "
@@ -1203,5 +1213,5 @@ def replay(ctx, payload):
         if f is not None:
             print(f"         fantasy model under predict[{cell_name(f['a'])}]>predict[{cell_name(f['b'])}] vs a second fantasy model: "
                   + (f["error"] if f["error"] is not None else f"rel.diff = {f['diff']:.3g}"))
-            bad_fantasy = bad_fantasy or f["error"] is not None or not (f["diff"] <= TOL)
+            bad_fantasy = bad_fantasy or (not f.get("skipped") and (f["error"] is not None or not (f["diff"] <= f["tol"])))
     return first_divergence(recs) is None and not bad_fantasy
